@@ -7,6 +7,8 @@ C text of the working tree on every run.
                                     false = entry NULLed only                        (pinned code)
   gc_sweep_nulls_first     : bool   GC_Sweep's finaliser loop clears freelist[i] before it calls
                                     dealloc(destruct(.))                             (D18 repair)
+  gc_set_defers_in_sweep   : bool   GC_Set does not start a threshold collection while a sweep is
+                                    running (gc->freelist non-NULL)                  (D22 repair)
   gc_life_shape            : bool   conjunction of the remaining fixed shapes (listed below); a
                                     shape that no longer matches makes it false and names itself
                                     in gc_life_shape_failed
@@ -66,6 +68,13 @@ def generate(repo, emit, src, func_body):
     emit('gc_sweep_nulls_first',
          'Definition gc_sweep_nulls_first : bool := %s.   (* source: finaliser loop of GC_Sweep%s *)'
          % (val or 'false', '' if val else ' — SHAPE NOT RECOGNISED'))
+
+    gset0 = func_body(gc, r'static\s+void\s+GC_Set\s*\(var self, var key, var val\)\s*\{')
+    g0 = re.sub(r'\s+', ' ', gset0) if gset0 else ''
+    defers = re.search(r'if \(gc->freelist isnt NULL\) \{ return; \} if \(gc->nitems > gc->mitems\)', g0) is not None
+    emit('gc_set_defers_in_sweep',
+         'Definition gc_set_defers_in_sweep : bool := %s.   (* source: GC_Set returns before the threshold test while gc->freelist is non-NULL *)'
+         % ('true' if defers else 'false'))
 
     # remaining shapes
     failed = []
